@@ -28,6 +28,8 @@ type pval struct {
 	producer string
 }
 
+const maxPooledLen = 64
+
 type engC12 struct {
 	pool  map[int]*pval
 	order []int
@@ -545,7 +547,9 @@ func (e *engC12) apply(op Op) (executed bool) {
 		}
 	}
 	if executed && res != nil && op.Out > 0 {
-		if reflect.ValueOf(res).Kind() == reflect.Slice {
+		// results longer than maxPooledLen are checked once (by the invariant over the existing values) but not
+		// kept: Append/Collect/Concat on their own results would otherwise double sizes up to 2^40 elements
+		if rv := reflect.ValueOf(res); rv.Kind() == reflect.Slice && rv.Len() <= maxPooledLen {
 			e.add(op.Out, res, op.F)
 		}
 	}
